@@ -956,10 +956,16 @@ def lookup_method(f):
     """model for a native bound method called with symbolic arguments"""
     selfobj = getattr(f, "__self__", None)
     name = getattr(f, "__name__", "")
-    if isinstance(selfobj, list) and name in ("append", "extend", "insert", "__iadd__"):
+    if isinstance(selfobj, list) and name in ("append", "extend", "insert", "__iadd__", "pop", "clear", "copy"):
         def run(I, obj, *a):
-            I.ctx.log_write(obj, "list." + name)
-            return getattr(obj, name)(*a)
+            if any(is_sym(x) for x in a) and name in ("pop", "insert"):
+                raise OutOfReach(f"list.{name} with a symbolic index")
+            if name != "copy":
+                I.ctx.log_write(obj, "list." + name)
+            try:
+                return getattr(obj, name)(*a)
+            except IndexError as ex:
+                raise PyRaise(IndexError, ex.args, "list." + name)
         return run
     if isinstance(selfobj, dict) and name in ("get", "pop", "setdefault"):
         def run_d(I, obj, key, *default):
